@@ -45,7 +45,7 @@ def check_write_once(ctx, num=1):
             if who == "PipelineRuntimeStatus.__init__":
                 ok = isinstance(w.node, (ast.Assign, ast.AnnAssign)) and isinstance(w.node.value, ast.Constant) and w.node.value.value is None
                 ctx.ob(num, "K1", f"{attr} starts unset", ok, w.fn, w.node, detail=stmt_text(w.node))
-            elif w.fn.node is f.node:
+            elif same_fn(w.fn, f):
                 once = norm.entails(g.facts_at(w.node), ("cmp", "is", f"self.{attr}", "None"))
                 val = isinstance(w.node, ast.Assign) and norm.U(w.node.value) == f.params()[1]
                 ctx.ob(num, "K2", f"{attr} is recorded at most once (the store is reached only with `{attr} is None` asserted) and stores the tick given", once and val, f, w.node,
@@ -395,7 +395,8 @@ def check_reductions(ctx, num=6):
     P = ctx.P
     m = P.mod(SIM)
     n_sites = 0
-    for f in list(m.funcs.values()):
+    from ..util import view_funcs
+    for f in view_funcs(P, m):
         g = None
         for c in own_nodes(f.node):
             if not (isinstance(c, ast.Call) and norm.call_name(c) in REDUCERS and c.args):
